@@ -3,7 +3,7 @@
 
 Two-way validation of the checks. Each entry of the JSON list describes one
 variant of /repo as textual substitutions:
-  {"name","prop","kind":"mutant"|"benign","edits":[{"file","old","new","nth":1}],"expect":"substring of the finding"}
+  {"name","prop","kind":"mutant"|"benign","edits":[{"file","old","new","nth":1}],"expect":"substring of the finding","absent":"substring of a KNOWN-FINDING line that a benign (repaired) variant must no longer print"}
 The variant is applied to a scratch copy of /repo (outside /repo and /verif),
 must still build, and the property's quick check is run against the copy with
 VERIF_REPO/VERIF_OUT. A mutant must be reported (exit 1, finding contains
@@ -44,6 +44,9 @@ def run_variant(m):
         finds = [l for l in out.splitlines() if l.startswith("  ")]
         if m.get("kind", "mutant") == "benign":
             if r.returncode == 0:
+                gone = m.get("absent")
+                if gone and any(gone in l for l in out.splitlines() if l.startswith("KNOWN-FINDING")):
+                    return "STILL-REPORTED", "known finding " + gone + " is still printed on the repaired variant"
                 return "OK-SILENT", ""
             return "FALSE-ALARM", "\n".join(finds[:4])[:700]
         if r.returncode == 1 and (not m.get("expect") or any(m["expect"] in l for l in finds)):
